@@ -24,6 +24,10 @@ CFGS = {
     "retry": {"retry": True},
     "vn": {"vn": True},
     "bigchain": {"chain": "bigchain", "cc": "cubic"},
+    # burst loss: everything sent between 25 ms and 300 ms is lost, probe timeouts fire with stream
+    # data waiting and the window exhausted
+    "blackout": {"blackout_from": 0.025, "blackout_until": 0.30},
+    "blackout_cubic": {"cc": "cubic", "blackout_from": 0.031, "blackout_until": 0.5},
 }
 
 
@@ -61,6 +65,8 @@ def run_wire(ctx):
     sc = {}
     for s in SCRIPTS:
         for c in CFGS:
+            if c.startswith("blackout") and s not in ("bulk_up", "bulk_both", "many_streams"):
+                continue
             if quick and c in ("bigchain", "cubic_v2") and s not in ("bulk_up", "hs_only"):
                 continue
             sc["%s|%s" % (s, c)] = {"script": s, "cfg": c}
@@ -70,6 +76,9 @@ def run_wire(ctx):
     if quick:
         keys = sorted(small)
         small = {k: small[k] for i, k in enumerate(keys) if i % 3 == ctx.seed % 3}
+    # tail loss of a congestion-limited burst: PTO with stream data still waiting
+    small["bulk_up|reno"] = dict(sc["bulk_up|reno"], dev=("drop",))
+    small["bulk_up|cubic_v2"] = dict(sc["bulk_up|cubic_v2"], dev=("drop",))
     netcheck.explore_scenarios(ctx, "c08", small, 1, "wire_d1", sig_extra=sig_extra)
     if not quick:
         d2 = {k: v for k, v in small.items() if v["script"] in ("hs_only", "echo")}
